@@ -52,6 +52,8 @@ def systematic(tier):
 
 def random_case(rng, tier):
     program = programs.gen_process_program(rng, PROGRAM_CFG)
+    if rng.random() < 0.2:
+        program['codec'] = True  # the class stores inputs/outputs in a representation of its own
     n_boundaries = len(program['steps']) * 2 + 1
     crashes = {}
     if rng.random() < 0.7:
